@@ -197,6 +197,18 @@ func VerifC09_eq_perm_deps() {
 	sym.Assert(a.defKey() == b.defKey(), "C09.eq.perm-deps")
 }
 
+// order independence also for elements that differ only in case (an ordering that is not total on
+// the elements would let the declaration order through)
+func VerifC09_eq_perm_case_variants() {
+	a, b := base(), base()
+	x, y := sym.StringNAlpha("x", 2, "aA"), sym.StringNAlpha("y", 2, "aA")
+	a.inputs, b.inputs = []string{x, y}, []string{y, x}
+	a.outIDs, b.outIDs = []string{x, y}, []string{y, x}
+	a.outTypes, b.outTypes = []int{0, 0}, []int{0, 0}
+	sym.Reach("C09.eq.perm-case-variants")
+	sym.Assert(a.defKey() == b.defKey(), "C09.eq.perm-case-variants")
+}
+
 func VerifC09_eq_maporder() {
 	a := base()
 	k1, k2 := sym.StringNAlpha("k1", 2, "ab"), sym.StringNAlpha("k2", 2, "ab")
